@@ -131,7 +131,10 @@ def default_prior(poly_trend=1, n_offsets=0, P_unit="day", v_unit="km/s", s=None
     f = (1 * u.km / u.s).to_value(vu)      # all prior scales are fixed physically (in km/s) and only *expressed* in vu
     with pm.Model() as model:
         pars = {}
-        if s is not None:
+        s_fixed = None
+        if s == "fixed":
+            s_fixed = (2.5 * u.km / u.s).to(u.m / u.s if vu == u.km / u.s else u.km / u.s)      # a constant jitter, declared in yet another unit
+        elif s is not None:
             pars["s"] = xu.with_unit(pm.Lognormal("s", -2.0 + np.log(f), 0.5), vu)
         offs = []
         for k in range(n_offsets):
@@ -142,7 +145,7 @@ def default_prior(poly_trend=1, n_offsets=0, P_unit="day", v_unit="km/s", s=None
         prior = JokerPrior.default(P_min=(2 * u.day).to(pu), P_max=(256 * u.day).to(pu),
                                    sigma_K0=(25 * u.km / u.s).to(vu), P0=(1 * u.year),
                                    sigma_v=sigma_v if poly_trend > 1 else sigma_v[0], poly_trend=poly_trend,
-                                   v0_offsets=offs or None, pars=pars or None, s=None, model=model)
+                                   v0_offsets=offs or None, pars=pars or None, s=s_fixed, model=model)
     _cache[key] = prior
     return prior
 
